@@ -989,6 +989,17 @@ int main(int argc, char** argv) {
                     if (uname[0] == 'F' && rng.chance(0.5)) t += "GCONPROD\n '" + w->group + "' 'ORAT' '" + uname + "' 3* 'RATE' /\n/\n";
                     kws.insert(kws.begin() + z + 1, gdeck::KwInst{"WCONPROD", t});
                     rep.count("cases_with_uda");
+                    // ... and an action that takes the user defined argument away again: applied at run time after a file has been
+                    // written with the argument in use, the later files must no longer list that use.
+                    if (rng.chance(0.6)) {
+                        std::string a2 = "ACTIONX\n 'UDAOFF' 3 0 /\n FOPR > 0 /\n/\n";
+                        if (rng.chance(0.5)) a2 += "WCONPROD\n '" + w->name + "' 'OPEN' 'ORAT' 450 700 800 900 1000 90 /\n/\n";
+                        else a2 += "WELTARG\n '" + w->name + "' 'ORAT' 450 /\n/\n";
+                        a2 += "ENDACTIO\n";
+                        const size_t q2 = q + rng.below(std::min<size_t>(2, m.steps.size() - q));
+                        if (q2 == q) kws.insert(kws.begin() + z + 2, gdeck::KwInst{"ACTIONX", a2}); else m.steps[q2].kws.push_back(gdeck::KwInst{"ACTIONX", a2});
+                        rep.count("cases_with_action_removing_uda");
+                    }
                     done = true;
                 }
             }
